@@ -38,6 +38,7 @@ func Run(p gsim.Plan) (v hk.Verdict) {
 	cur := map[model.Key]*model.Res{}
 	handlerIdx := 0
 	createdAt := map[model.Key]int{}
+	tainted := map[string]bool{} // ids whose input was overwritten across incarnations (ABA)
 
 	for i, e := range r.Log {
 		c := e.Commit
@@ -51,7 +52,24 @@ func Run(p gsim.Plan) (v hk.Verdict) {
 		if k.Typ == hres.TypeGA && c.Kind == model.Updated && e.Via == "rt" && c.Old != nil && (c.New.Val != c.Old.Val || c.New.Phase != c.Old.Phase) {
 			v.Label("aba-overwrite-of-recreated-input-tolerated")
 
+			// the overwrite may have wiped finalizers other parties rely on: everything that follows for this id is a
+			// consequence of it, not of the controllers' ordering logic
+			tainted[k.ID] = true
 			cur[k] = c.New
+
+			continue
+		}
+
+		if tainted[k.ID] || (k.Typ == hres.TypeGC || k.Typ == hres.TypeGD) && tainted[c.New.Labels["parent"]] {
+			if c.Kind == model.Created {
+				createdAt[k] = i
+			}
+
+			if c.Kind == model.Destroyed {
+				delete(cur, k)
+			} else {
+				cur[k] = c.New
+			}
 
 			continue
 		}
